@@ -62,3 +62,10 @@ claim(
     "Trusted: python ast, bfsa. MAC / hash outputs are assumed not to reveal inputs.",
     "DESIGN.md section 4, C06",
 )
+claim(
+    "C16", "other",
+    "exhaustive constant audit of the lookup tables against GF(2^8) definitions; abstract interpretation of the round functions and key schedule in a byte-lane XOR-normal-form (Herbrand) domain with term equality against FIPS-197; provenance/effect rules for modes and adapter",
+    "Decides, for all keys and blocks symbolically: the 14 lookup tables (3584 entries), rcon and the round counts equal their GF(2^8) definitions; AES.encrypt and AES.decrypt (10/12/14 rounds) produce, byte for byte as terms over block and round-key bytes, the FIPS-197 cipher and equivalent inverse cipher; the key schedule for 128/192/256-bit keys equals FIPS-197 5.2 and the decryption keys are its mirrored, InvMixColumn'ed form; tables are never written; CBC and ECB satisfy their chaining equations, CBC starts from the IV or 16 zero bytes; the feeder finaliser with padding disabled passes the block through; the registered adapter builds a fresh CBC mode from (key, iv) on every call, keeps no state, zero-pads by (-len) mod 16, MAC = last 16 ciphertext bytes, decrypt returns exactly the padded plaintext. Not decided: that decryption inverts encryption as a value identity beyond the two FIPS equalities, CFB/OFB/CTR/Counter, and BlockFeeder behaviour for arbitrary input splits.",
+    "Trusted: python ast, bfsa abstract interpreter with concrete control, the lane domain and the FIPS-197 reference written in it (rules/c16.py, bfsa/domains/lanes.py).",
+    "DESIGN.md section 4, C16",
+)
